@@ -151,6 +151,9 @@ func packageClaims(f *protogen.File, allOpaque bool) map[string][]string {
 		add(n+"_value", "value map of enum "+string(e.Desc.FullName()))
 		for _, v := range e.Values {
 			add(v.GoIdent.GoName, "enum value "+string(v.Desc.FullName()))
+			if a := v.PrefixedAlias.GoName; a != "" && a != v.GoIdent.GoName {
+				add(a, "prefixed alias of enum value "+string(v.Desc.FullName())+" (strip_enum_prefix = GENERATE_BOTH)")
+			}
 		}
 	}
 	ext := func(x *protogen.Extension) {
@@ -332,7 +335,11 @@ func checkGen(c genCase) error {
 // frontEnd runs generator, format check and type check on the set; bad lists the schema files whose
 // packages do not compile for a registered reason (and the files that import them).
 func frontEnd(files []*descriptorpb.FileDescriptorProto, level string, exclude bool) (g *generated, bad map[int]string, res genResult, err error) {
-	g, err = generate(files, level)
+	return frontEndAt(files, level, pkgBase(level), exclude)
+}
+
+func frontEndAt(files []*descriptorpb.FileDescriptorProto, level, base string, exclude bool) (g *generated, bad map[int]string, res genResult, err error) {
+	g, err = generateAt(files, level, base)
 	if err != nil {
 		return nil, nil, res, err
 	}
